@@ -190,7 +190,17 @@ Guard(r, caught, what) == IF IsCrash(r) /\ r[2] \in caught THEN <<"ConstructorEr
 Upper == <<"A","B","C","D","E","F","G","H","I","J","K","L","M","N","O","P","Q","R","S","T","U","V","W","X","Y","Z">>
 Lower == <<"a","b","c","d","e","f","g","h","i","j","k","l","m","n","o","p","q","r","s","t","u","v","w","x","y","z">>
 UpperSet == {Upper[i] : i \in DOMAIN Upper}
-LowerC(c) == IF c \in UpperSet THEN Lower[CHOOSE i \in DOMAIN Upper : Upper[i] = c] ELSE c
+\* Characters outside ASCII are atoms named by their code point, "u0662" = ARABIC-INDIC DIGIT TWO (the harness
+\* concretises them).  The builtins are Unicode-aware although the regexps are not: str.lower maps KELVIN SIGN to k,
+\* int() and float() read every Unicode decimal digit, strip() / int() / float() skip every Unicode space.
+UDigitBlocks == << <<"u0660", "u0661", "u0662", "u0663", "u0664", "u0665", "u0666", "u0667", "u0668", "u0669">>,
+                   <<"u0966", "u0967", "u0968", "u0969", "u096A", "u096B", "u096C", "u096D", "u096E", "u096F">>,
+                   <<"uFF10", "uFF11", "uFF12", "uFF13", "uFF14", "uFF15", "uFF16", "uFF17", "uFF18", "uFF19">> >>
+UDigits == UNION {{UDigitBlocks[b][i] : i \in 1 .. 10} : b \in DOMAIN UDigitBlocks}
+UDigitVal(c) == (CHOOSE i \in 1 .. 10 : \E b \in DOMAIN UDigitBlocks : UDigitBlocks[b][i] = c) - 1
+USpaces == {"u00A0", "u2003", "u3000"}
+LowerC(c) == IF c \in UpperSet THEN Lower[CHOOSE i \in DOMAIN Upper : Upper[i] = c]
+             ELSE IF c = "u212A" THEN "k" ELSE c
 StrLower(s) == [i \in DOMAIN s |-> LowerC(s[i])]
 StrRemove(s, c) == SelectSeq(s, LAMBDA x : x # c)                 \* s.replace(c, '')
 StartsWith(s, p) == Len(s) >= Len(p) /\ SubSeq(s, 1, Len(p)) = p
@@ -202,14 +212,15 @@ StrSplitR(s, sep, i, cur) == IF i > Len(s) THEN <<cur>>
                              ELSE StrSplitR(s, sep, i + 1, Append(cur, s[i]))
 StrSplit(s, sep) == StrSplitR(s, sep, 1, <<>>)                    \* s.split(sep)
 Reverse(s) == [i \in DOMAIN s |-> s[Len(s) + 1 - i]]
-PyWs == {" ", "\t", "\n"}
+PyWs == {" ", "\t", "\n"} \cup USpaces
 RECURSIVE LStrip(_)
 LStrip(s) == IF s # <<>> /\ s[1] \in PyWs THEN LStrip(Tail(s)) ELSE s
 Strip(s) == Reverse(LStrip(Reverse(LStrip(s))))
 
 DigSeq == <<"0","1","2","3","4","5","6","7","8","9","a","b","c","d","e","f">>
-DigVal(c) == (CHOOSE i \in DOMAIN DigSeq : DigSeq[i] = LowerC(c)) - 1
-IsDig(c, base) == LowerC(c) \in {DigSeq[i] : i \in 1 .. base}
+AsciiDigit(c) == IF c \in UDigits THEN DigSeq[UDigitVal(c) + 1] ELSE LowerC(c)     \* what int() / float() read c as
+DigVal(c) == (CHOOSE i \in DOMAIN DigSeq : DigSeq[i] = AsciiDigit(c)) - 1
+IsDig(c, base) == AsciiDigit(c) \in {DigSeq[i] : i \in 1 .. base}
 \* digits with single underscores strictly inside: the shape int() and float() accept
 Grouped(s, base) == /\ s # <<>> /\ IsDig(s[1], base) /\ IsDig(s[Len(s)], base)
                     /\ \A i \in DOMAIN s : IsDig(s[i], base) \/ (s[i] = "_" /\ i > 1 /\ s[i - 1] # "_")
